@@ -338,10 +338,20 @@ class FakeGateway:
 
     # the two factories --------------------------------------------------
     async def open_connection(self, host=None, port=None, **kw):
+        if host == "down.invalid":
+            return await self._down()
         return await self._open(limit=kw.get("limit", 2 ** 16))
 
     async def open_serial_connection(self, **kw):
+        if kw.get("url") == "/dev/down":
+            return await self._down()
         return await self._open(limit=kw.get("limit", 2 ** 16))
+
+    async def _down(self):
+        """the gateway of a bystander client (another client object in the same event loop): never reachable"""
+        self.down_attempts = getattr(self, "down_attempts", 0) + 1
+        await asyncio.sleep(0)
+        raise ConnectionRefusedError(111, "Connection refused (bystander's gateway is down)")
 
     async def _open(self, limit=2 ** 16):
         fut = self.loop.create_future()
@@ -453,7 +463,8 @@ class Session:
     """
 
     def __init__(self, kind, script, specials=None, deviations=(), client_kw=None, recv_cb="ok", status_cb="ok",
-                 settle=60.0, heal=None, max_boundaries=4000, connect_plan=("accept",), setup=None):
+                 settle=60.0, heal=None, max_boundaries=4000, connect_plan=("accept",), setup=None, bystander=False):
+        self.bystander = bystander
         self.kind = kind
         self.script = list(script)
         self.specials = specials or {}
@@ -595,6 +606,12 @@ class Session:
         self.client = make_client(self.kind, **self.client_kw)
         self.client.set_receive_callback(self._recv_cb)
         self.client.set_status_callback(self._status_cb)
+        if self.bystander:
+            # a second client object of the same class in the same loop, busy retrying a gateway that is down; it is
+            # closed after 40 s of virtual time so that the session can become quiescent
+            self.by = WaveShareNmea2000Gateway("/dev/down") if self.kind == "waveshare" else CLIENTS[self.kind]("down.invalid", 1)
+            self.spawn(self.by.connect(), "bystander-connect")
+            self.loop.call_later(40.0, lambda: self.spawn(self.by.close(), "bystander-close"))
         dev = list(self.deviations)
         b = 0
         script_i = 0
@@ -910,7 +927,8 @@ def sp_close(sess):
         await sess.client.close()
         # what is still open at the moment this close() call returns (a close() that returns early leaves the link up)
         sess.obs.marks.setdefault("open_at_close_return", []).append(
-            [c.cid for c in sess.gw.conns if not (c.closed_by_client or c.lost or c.reset or (c.eof_sent and c is not sess.gw.conns[-1]))])
+            [c.cid for c in sess.gw.conns if not (c.closed_by_client or c.lost or c.reset or c.write_failed_at is not None
+                                                or (c.eof_sent and c is not sess.gw.conns[-1]))])
         sess.close_returned = True
         sess.obs.marks["close_returned_t"] = sess.loop.time()
         sess.obs.marks["received_at_close_return"] = len(sess.obs.received)
